@@ -48,6 +48,18 @@ BENIGN = [
     "    }",
     "#",
     "  service-policy input PM-IN\x0b",
+    "\"",
+    "{",
+    "\";",
+    "''",
+    "[ ]",
+    " , ",
+    ";",
+    "\t \tdescription mixed indent",
+    "set pksecret \"\"",
+    "enable secret ''",
+    "y" * 5000,
+    "  \x0c  ",
 ]
 
 # ---------------------------------------------------------------------------
